@@ -154,6 +154,8 @@ def run(repo: Repo, rep: Report, tier: str) -> None:
     _hook_and_dispatch_contracts(repo, rep)
     _declared_hook(repo, rep)
     _speculation(repo, rep, c)
+    if getattr(rep, "borrowed", False):
+        return  # another property borrows main-body rules only
     from ..core import siblings as _sib2
     _sib2.check_own_method_tests(repo, rep, "R14.11")
 
